@@ -1,3 +1,1189 @@
 package main
 
-func replayModel(prop string, o *Obligation, dir string) *ReplayResult { return nil }
+// Replay of solver counterexamples on the real code.
+//
+// For an obligation refuted by a solver (verdict sat) the model describes an entry state of the function under
+// contract. Where every parameter (and the receiver) has a type we can construct in Go source (integers, booleans,
+// strings, slices, pointers to and values of structs made of these, nil for interfaces/maps/funcs), the entry state is
+// read back from the solver (one interactive z3 session: check-sat, then get-value for the parameter leaves and the
+// entry heap cells they reach), written as a Go test in the function's own package, injected with `go test -overlay`
+// (nothing is written to the repository) and run. The violation is CONFIRMED when the real function panics (safety
+// obligations) or returns values for which the contract's postcondition, compiled to Go from the same clause text,
+// evaluates to false. Anything else (types we cannot construct, ghost vocabulary in the clause, a model that lives in a
+// havocked loop state and does not reproduce from the entry) leaves the violation reported as no-failing-input-found.
+
+import (
+	"bufio"
+	"bytes"
+	"encoding/json"
+	"fmt"
+	"go/ast"
+	"go/token"
+	"go/types"
+	"io"
+	"math/big"
+	"os"
+	"os/exec"
+	"path/filepath"
+	"sort"
+	"strconv"
+	"strings"
+	"time"
+
+	"golang.org/x/tools/go/ssa"
+)
+
+type replayParam struct {
+	Name string
+	V    Val
+}
+
+// ReplayCtx is captured once per encoded function.
+type ReplayCtx struct {
+	Fn       *ssa.Function
+	Params   []replayParam
+	EntryH   map[Sort]string
+	M        Mode
+	Results  []string
+	Ct       *Contract
+	CS       *ContractSet
+	NoSafety bool
+	Dir      string // repository directory
+	Ghosts   map[string]bool
+}
+
+func (e *Enc) replayCtx() *ReplayCtx {
+	if e.rc != nil {
+		return e.rc
+	}
+	rc := &ReplayCtx{Fn: e.Fn, EntryH: map[Sort]string{}, M: e.M, Results: e.resultNames(), Ct: e.Ct, CS: e.CS, NoSafety: e.noSafety, Dir: e.P.Dir, Ghosts: map[string]bool{}}
+	for _, p := range e.Fn.Params {
+		rc.Params = append(rc.Params, replayParam{p.Name(), e.params[p.Name()]})
+	}
+	if e.entry != nil {
+		for s, h := range e.entry.H {
+			rc.EntryH[s] = h
+		}
+	}
+	for g := range e.CS.Ghosts {
+		rc.Ghosts[g] = true
+	}
+	e.rc = rc
+	return rc
+}
+
+var replayBudget = 3 // replays per check run (each costs a go test build)
+
+// ---- interactive solver session ----
+
+type smtSession struct {
+	cmd *exec.Cmd
+	in  io.WriteCloser
+	out *bufio.Reader
+}
+
+func startSession(query string) (*smtSession, string, error) {
+	// strip the trailing (check-sat)(get-model)
+	q := query
+	if i := strings.LastIndex(q, "(check-sat)"); i >= 0 {
+		q = q[:i]
+	}
+	cmd := exec.Command("z3-new", "-in", "-T:20")
+	in, err := cmd.StdinPipe()
+	if err != nil {
+		return nil, "", err
+	}
+	outp, err := cmd.StdoutPipe()
+	if err != nil {
+		return nil, "", err
+	}
+	cmd.Stderr = cmd.Stdout
+	if err := cmd.Start(); err != nil {
+		return nil, "", err
+	}
+	s := &smtSession{cmd: cmd, in: in, out: bufio.NewReader(outp)}
+	io.WriteString(in, q)
+	v, err := s.checkSat()
+	return s, v, err
+}
+
+func (s *smtSession) close() {
+	s.in.Close()
+	done := make(chan struct{})
+	go func() { s.cmd.Wait(); close(done) }()
+	select {
+	case <-done:
+	case <-time.After(2 * time.Second):
+		s.cmd.Process.Kill()
+	}
+}
+
+func (s *smtSession) readLine() (string, error) {
+	type res struct {
+		s   string
+		err error
+	}
+	ch := make(chan res, 1)
+	go func() {
+		for {
+			ln, err := s.out.ReadString('\n')
+			if err != nil {
+				ch <- res{ln, err}
+				return
+			}
+			if strings.TrimSpace(ln) != "" {
+				ch <- res{strings.TrimSpace(ln), nil}
+				return
+			}
+		}
+	}()
+	select {
+	case r := <-ch:
+		return r.s, r.err
+	case <-time.After(40 * time.Second):
+		s.cmd.Process.Kill()
+		return "", fmt.Errorf("solver session timed out")
+	}
+}
+
+func (s *smtSession) checkSat() (string, error) {
+	io.WriteString(s.in, "(check-sat)\n")
+	return s.readLine()
+}
+
+// readSexp reads one balanced s-expression (possibly spanning lines).
+func (s *smtSession) readSexp() (string, error) {
+	var b strings.Builder
+	depth := 0
+	started := false
+	for {
+		ln, err := s.readLine()
+		if err != nil {
+			return b.String(), err
+		}
+		b.WriteString(ln)
+		b.WriteString("\n")
+		for _, c := range ln {
+			if c == '(' {
+				depth++
+				started = true
+			} else if c == ')' {
+				depth--
+			}
+		}
+		if !started || depth <= 0 {
+			return b.String(), nil
+		}
+	}
+}
+
+// getValue evaluates one term in the current model.
+func (s *smtSession) getValue(term string) (string, error) {
+	io.WriteString(s.in, "(get-value ("+term+"))\n")
+	out, err := s.readSexp()
+	if err != nil {
+		return "", err
+	}
+	if strings.Contains(out, "(error") {
+		return "", fmt.Errorf("solver: %s", strings.TrimSpace(out))
+	}
+	toks := tokenizeSexp(out)
+	// (( term value ))
+	if len(toks) < 5 || toks[0] != "(" || toks[1] != "(" {
+		return "", fmt.Errorf("unexpected get-value answer %q", out)
+	}
+	j := skipSexp(toks, 2) // skip the echoed term
+	k := skipSexp(toks, j)
+	return strings.Join(toks[j:k], " "), nil
+}
+
+// prefer tries to add a constraint that makes the model simpler; it is kept only if the goal stays satisfiable.
+func (s *smtSession) prefer(c string) {
+	io.WriteString(s.in, "(push 1)\n(assert "+c+")\n")
+	v, err := s.checkSat()
+	if err != nil || v != "sat" {
+		io.WriteString(s.in, "(pop 1)\n")
+		s.checkSat()
+	}
+}
+
+// ---- reading Go values out of the model ----
+
+type replayX struct {
+	rc      *ReplayCtx
+	s       *smtSession
+	pkg     *types.Package
+	imports map[string]string // path -> name
+	objs    map[string]string // object id -> where it was used (aliasing guard)
+	notes   []string
+	// preferences for a simple model: nil for nilable leaves; short strings and slices
+	prefsNil  []string
+	prefsSize []string
+}
+
+type unsupported struct{ why string }
+
+func (u unsupported) Error() string { return u.why }
+
+func (x *replayX) qual(p *types.Package) string {
+	if p == x.pkg {
+		return ""
+	}
+	x.imports[p.Path()] = p.Name()
+	return p.Name()
+}
+
+func (x *replayX) typeStr(t types.Type) string { return types.TypeString(t, x.qual) }
+
+func (x *replayX) evalInt(term string, bits int, signed bool) (*big.Int, error) {
+	v, err := x.s.getValue(term)
+	if err != nil {
+		return nil, err
+	}
+	return decodeSMTInt(v, signed)
+}
+
+func decodeSMTInt(v string, signed bool) (*big.Int, error) {
+	v = strings.TrimSpace(v)
+	n := new(big.Int)
+	switch {
+	case strings.HasPrefix(v, "#x"):
+		n.SetString(v[2:], 16)
+		bits := 4 * len(v[2:])
+		if signed && n.Bit(bits-1) == 1 {
+			n.Sub(n, new(big.Int).Lsh(big.NewInt(1), uint(bits)))
+		}
+		return n, nil
+	case strings.HasPrefix(v, "#b"):
+		n.SetString(v[2:], 2)
+		bits := len(v[2:])
+		if signed && n.Bit(bits-1) == 1 {
+			n.Sub(n, new(big.Int).Lsh(big.NewInt(1), uint(bits)))
+		}
+		return n, nil
+	case strings.HasPrefix(v, "( -"):
+		inner := strings.TrimSpace(strings.TrimSuffix(strings.TrimPrefix(v, "( -"), ")"))
+		if _, ok := n.SetString(inner, 10); !ok {
+			return nil, fmt.Errorf("bad integer %q", v)
+		}
+		return n.Neg(n), nil
+	}
+	if _, ok := n.SetString(v, 10); !ok {
+		return nil, fmt.Errorf("bad integer %q", v)
+	}
+	return n, nil
+}
+
+func (x *replayX) idx(term string) (int64, error) {
+	n, err := x.evalInt(term, 64, true)
+	if err != nil {
+		return 0, err
+	}
+	if !n.IsInt64() {
+		return 0, unsupported{"model value out of range"}
+	}
+	return n.Int64(), nil
+}
+
+func (x *replayX) loadTerms(t types.Type, obj, off string) ([]string, error) {
+	ls, ok := x.rc.M.leafSorts(t)
+	if !ok {
+		return nil, unsupported{"unrepresentable type " + t.String()}
+	}
+	var out []string
+	for i, s := range ls {
+		h, ok := x.rc.EntryH[s]
+		if !ok {
+			return nil, unsupported{"no entry heap for sort " + string(s)}
+		}
+		o := off
+		if i > 0 {
+			o = x.rc.M.iadd(off, x.rc.M.ilit(int64(i)))
+		}
+		out = append(out, "(select (select "+h+" "+obj+") "+o+")")
+	}
+	return out, nil
+}
+
+// claim records that the object's cells of the sorts of t are owned by one parameter path; a second path reaching the
+// same cells would be aliasing, which the generated literals cannot express.
+func (x *replayX) claim(obj int64, t types.Type, where string) error {
+	sorts := map[Sort]bool{}
+	var walk func(t types.Type, d int)
+	walk = func(t types.Type, d int) {
+		if d > 4 {
+			return
+		}
+		switch u := t.Underlying().(type) {
+		case *types.Struct:
+			for i := 0; i < u.NumFields(); i++ {
+				walk(u.Field(i).Type(), d+1)
+			}
+		case *types.Array:
+			walk(u.Elem(), d+1)
+		default:
+			if ls, ok := x.rc.M.leafSorts(t); ok {
+				for _, s := range ls {
+					sorts[s] = true
+				}
+			}
+		}
+	}
+	walk(t, 0)
+	for s := range sorts {
+		key := fmt.Sprintf("%d/%s", obj, s)
+		if w, ok := x.objs[key]; ok && w != where {
+			return unsupported{"two parameters alias the same object in the model (" + w + ", " + where + ")"}
+		}
+		x.objs[key] = where
+	}
+	return nil
+}
+
+// build returns Go source for the value of type t whose leaves are the SMT terms L.
+func (x *replayX) build(t types.Type, L []string, depth int, where string) (string, error) {
+	if depth > 6 {
+		return "", unsupported{"value nested too deeply"}
+	}
+	m := x.rc.M
+	switch u := t.Underlying().(type) {
+	case *types.Basic:
+		switch {
+		case u.Info()&types.IsInteger != 0:
+			bits, signed := intBits(u)
+			n, err := x.evalInt(L[0], bits, signed)
+			if err != nil {
+				return "", err
+			}
+			return fmt.Sprintf("%s(%s)", x.typeStr(t), n.String()), nil
+		case u.Info()&types.IsBoolean != 0:
+			v, err := x.s.getValue(L[0])
+			if err != nil {
+				return "", err
+			}
+			return fmt.Sprintf("%s(%s)", x.typeStr(t), strings.TrimSpace(v)), nil
+		case u.Info()&types.IsString != 0:
+			n, err := x.idx("(slen " + L[0] + ")")
+			if err != nil {
+				return "", err
+			}
+			if n > 2048 {
+				return "", unsupported{fmt.Sprintf("string of length %d in the model", n)}
+			}
+			bs := make([]byte, n)
+			for i := int64(0); i < n; i++ {
+				c, err := x.idx("(sat " + L[0] + " " + m.ilit(i) + ")")
+				if err != nil {
+					return "", err
+				}
+				bs[i] = byte(c)
+			}
+			return fmt.Sprintf("%s(%s)", x.typeStr(t), strconv.Quote(string(bs))), nil
+		}
+		return "", unsupported{"basic type " + t.String()}
+	case *types.Slice:
+		obj, err := x.idx(L[0])
+		if err != nil {
+			return "", err
+		}
+		ln, err := x.idx(L[2])
+		if err != nil {
+			return "", err
+		}
+		cp, err := x.idx(L[3])
+		if err != nil {
+			return "", err
+		}
+		if obj == 0 {
+			return fmt.Sprintf("%s(nil)", x.typeStr(t)), nil
+		}
+		if ln > 128 || cp > 1<<16 {
+			return "", unsupported{fmt.Sprintf("slice of length %d capacity %d in the model", ln, cp)}
+		}
+		off, err := x.idx(L[1])
+		if err != nil {
+			return "", err
+		}
+		if err := x.claim(obj, u.Elem(), where); err != nil {
+			return "", err
+		}
+		var elems []string
+		sl := slots(u.Elem())
+		for i := int64(0); i < ln; i++ {
+			ts, err := x.loadTerms(u.Elem(), m.ilit(obj), m.ilit(off+i*sl))
+			if err != nil {
+				return "", err
+			}
+			g, err := x.build(u.Elem(), ts, depth+1, fmt.Sprintf("%s[%d]", where, i))
+			if err != nil {
+				return "", err
+			}
+			elems = append(elems, g)
+		}
+		ts := x.typeStr(t)
+		if ut, ok := t.(*types.Named); ok {
+			_ = ut
+			return fmt.Sprintf("%s(append(make(%s, 0, %d), %s))", ts, x.typeStr(t.Underlying()), cp, strings.Join(elems, ", ")), nil
+		}
+		if len(elems) == 0 {
+			return fmt.Sprintf("make(%s, 0, %d)", ts, cp), nil
+		}
+		return fmt.Sprintf("append(make(%s, 0, %d), %s)", ts, cp, strings.Join(elems, ", ")), nil
+	case *types.Pointer:
+		obj, err := x.idx(L[0])
+		if err != nil {
+			return "", err
+		}
+		if obj == 0 {
+			return fmt.Sprintf("(%s)(nil)", x.typeStr(t)), nil
+		}
+		off, err := x.idx(L[1])
+		if err != nil {
+			return "", err
+		}
+		if err := x.claim(obj, u.Elem(), where); err != nil {
+			return "", err
+		}
+		ts, err := x.loadTerms(u.Elem(), m.ilit(obj), m.ilit(off))
+		if err != nil {
+			return "", err
+		}
+		g, err := x.build(u.Elem(), ts, depth+1, "*"+where)
+		if err != nil {
+			return "", err
+		}
+		return fmt.Sprintf("vrPtr(%s)", g), nil
+	case *types.Struct:
+		var fs []string
+		k := 0
+		for i := 0; i < u.NumFields(); i++ {
+			f := u.Field(i)
+			ls, ok := m.leafSorts(f.Type())
+			if !ok {
+				return "", unsupported{"field " + f.Name() + " of unrepresentable type"}
+			}
+			sub := L[k : k+len(ls)]
+			k += len(ls)
+			if f.Name() == "_" {
+				continue
+			}
+			if !f.Exported() && f.Pkg() != x.pkg {
+				return "", unsupported{"unexported field " + f.Name() + " of a type from another package"}
+			}
+			g, err := x.build(f.Type(), sub, depth+1, where+"."+f.Name())
+			if err != nil {
+				return "", err
+			}
+			fs = append(fs, f.Name()+": "+g)
+		}
+		return fmt.Sprintf("%s{%s}", x.typeStr(t), strings.Join(fs, ", ")), nil
+	case *types.Interface:
+		typ, err := x.idx(L[0])
+		if err != nil {
+			return "", err
+		}
+		if typ == 0 {
+			return fmt.Sprintf("%s(nil)", x.typeStr(t)), nil
+		}
+		return "", unsupported{"non-nil interface value " + where + " in the model"}
+	case *types.Map, *types.Chan, *types.Signature:
+		obj, err := x.idx(L[0])
+		if err != nil {
+			return "", err
+		}
+		if obj == 0 {
+			return fmt.Sprintf("(%s)(nil)", x.typeStr(t)), nil
+		}
+		return "", unsupported{"non-nil map/chan/func value " + where + " in the model"}
+	case *types.Array:
+		var elems []string
+		es, _ := m.leafSorts(u.Elem())
+		for i := int64(0); i < u.Len(); i++ {
+			g, err := x.build(u.Elem(), L[int(i)*len(es):int(i+1)*len(es)], depth+1, fmt.Sprintf("%s[%d]", where, i))
+			if err != nil {
+				return "", err
+			}
+			elems = append(elems, g)
+		}
+		return fmt.Sprintf("%s{%s}", x.typeStr(t), strings.Join(elems, ", ")), nil
+	}
+	return "", unsupported{"type " + t.String()}
+}
+
+// preferences: nil for nilable leaves, short strings and slices
+func (x *replayX) preferences(t types.Type, L []string, depth int) {
+	if depth > 3 || len(L) == 0 {
+		return
+	}
+	m := x.rc.M
+	z := m.ilit(0)
+	switch u := t.Underlying().(type) {
+	case *types.Basic:
+		if u.Info()&types.IsString != 0 {
+			x.prefsSize = append(x.prefsSize, m.ile("(slen "+L[0]+")", m.ilit(12)))
+		}
+	case *types.Slice:
+		x.prefsSize = append(x.prefsSize, m.ile(L[2], m.ilit(6)), m.ile(L[3], m.ilit(64)))
+		if depth < 2 {
+			sl := slots(u.Elem())
+			for i := int64(0); i < 6; i++ {
+				if ts, err := x.loadTerms(u.Elem(), L[0], m.iadd(L[1], m.ilit(i*sl))); err == nil {
+					x.preferences(u.Elem(), ts, depth+2)
+				}
+			}
+		}
+	case *types.Interface:
+		x.prefsNil = append(x.prefsNil, eq(L[0], z))
+	case *types.Map, *types.Chan, *types.Signature:
+		x.prefsNil = append(x.prefsNil, eq(L[0], z))
+	case *types.Struct:
+		k := 0
+		for i := 0; i < u.NumFields(); i++ {
+			ls, ok := m.leafSorts(u.Field(i).Type())
+			if !ok {
+				return
+			}
+			x.preferences(u.Field(i).Type(), L[k:k+len(ls)], depth+1)
+			k += len(ls)
+		}
+	case *types.Pointer:
+		if _, ok := u.Elem().Underlying().(*types.Struct); ok {
+			ts, err := x.loadTerms(u.Elem(), L[0], L[1])
+			if err == nil {
+				x.preferences(u.Elem(), ts, depth+1)
+			}
+		}
+	}
+}
+
+// ---- contract clause -> Go ----
+
+type goCompiler struct {
+	rc      *ReplayCtx
+	params  map[string]bool
+	n       int
+	usesOld map[string]bool
+	imports map[string]string
+}
+
+func cloneExpr(x ast.Expr, f func(ast.Expr) ast.Expr) ast.Expr {
+	if x == nil {
+		return nil
+	}
+	if r := f(x); r != nil {
+		return r
+	}
+	switch n := x.(type) {
+	case *ast.Ident:
+		c := *n
+		return &c
+	case *ast.BasicLit:
+		c := *n
+		return &c
+	case *ast.ParenExpr:
+		return &ast.ParenExpr{X: cloneExpr(n.X, f)}
+	case *ast.UnaryExpr:
+		return &ast.UnaryExpr{Op: n.Op, X: cloneExpr(n.X, f)}
+	case *ast.BinaryExpr:
+		return &ast.BinaryExpr{Op: n.Op, X: cloneExpr(n.X, f), Y: cloneExpr(n.Y, f)}
+	case *ast.CallExpr:
+		c := &ast.CallExpr{Fun: cloneExpr(n.Fun, f)}
+		for _, a := range n.Args {
+			c.Args = append(c.Args, cloneExpr(a, f))
+		}
+		return c
+	case *ast.IndexExpr:
+		return &ast.IndexExpr{X: cloneExpr(n.X, f), Index: cloneExpr(n.Index, f)}
+	case *ast.SliceExpr:
+		return &ast.SliceExpr{X: cloneExpr(n.X, f), Low: cloneExpr(n.Low, f), High: cloneExpr(n.High, f), Max: cloneExpr(n.Max, f), Slice3: n.Slice3}
+	case *ast.SelectorExpr:
+		return &ast.SelectorExpr{X: cloneExpr(n.X, f), Sel: &ast.Ident{Name: n.Sel.Name}}
+	case *ast.StarExpr:
+		return &ast.StarExpr{X: cloneExpr(n.X, f)}
+	case *ast.TypeAssertExpr:
+		return &ast.TypeAssertExpr{X: cloneExpr(n.X, f), Type: n.Type}
+	}
+	return x
+}
+
+func callName(x ast.Expr) string {
+	if c, ok := x.(*ast.CallExpr); ok {
+		if id, ok := c.Fun.(*ast.Ident); ok {
+			return id.Name
+		}
+	}
+	return ""
+}
+
+// expand inlines spec functions and renames bound variables apart.
+func (g *goCompiler) expand(x ast.Expr, depth int) (ast.Expr, error) {
+	if depth > 12 {
+		return nil, unsupported{"spec functions nested too deeply"}
+	}
+	var err error
+	out := cloneExpr(x, func(n ast.Expr) ast.Expr {
+		if err != nil {
+			return n
+		}
+		c, ok := n.(*ast.CallExpr)
+		if !ok {
+			return nil
+		}
+		name := callName(c)
+		switch name {
+		case "all", "any":
+			if len(c.Args) != 4 {
+				err = unsupported{"malformed quantifier"}
+				return n
+			}
+			bv, ok := c.Args[0].(*ast.Ident)
+			if !ok {
+				err = unsupported{"malformed quantifier"}
+				return n
+			}
+			g.n++
+			nv := fmt.Sprintf("%s_q%d", bv.Name, g.n)
+			ren := func(e ast.Expr) ast.Expr {
+				return cloneExpr(e, func(m ast.Expr) ast.Expr {
+					if id, ok := m.(*ast.Ident); ok && id.Name == bv.Name {
+						return &ast.Ident{Name: nv}
+					}
+					return nil
+				})
+			}
+			lo, e1 := g.expand(c.Args[1], depth+1)
+			hi, e2 := g.expand(c.Args[2], depth+1)
+			body, e3 := g.expand(ren(c.Args[3]), depth+1)
+			for _, e := range []error{e1, e2, e3} {
+				if e != nil {
+					err = e
+					return n
+				}
+			}
+			return &ast.CallExpr{Fun: &ast.Ident{Name: name}, Args: []ast.Expr{&ast.Ident{Name: nv}, lo, hi, body}}
+		case "forall", "exists", "fresh", "sameobj", "objof":
+			err = unsupported{"clause uses " + name + "(), which has no executable meaning"}
+			return n
+		}
+		if sf, ok := g.rc.CS.Specs[name]; ok && name != "" {
+			if sf.Uninterp || sf.Body == nil {
+				err = unsupported{"clause uses the uninterpreted ghost function " + name}
+				return n
+			}
+			if len(sf.Params) != len(c.Args) {
+				err = unsupported{"spec arity"}
+				return n
+			}
+			args := map[string]ast.Expr{}
+			for i, p := range sf.Params {
+				a, e := g.expand(c.Args[i], depth+1)
+				if e != nil {
+					err = e
+					return n
+				}
+				args[p.Name] = a
+			}
+			// expand the body first (renames its bound variables), then substitute
+			body, e := g.expand(sf.Body, depth+1)
+			if e != nil {
+				err = e
+				return n
+			}
+			sub := cloneExpr(body, func(m ast.Expr) ast.Expr {
+				if id, ok := m.(*ast.Ident); ok {
+					if a, ok := args[id.Name]; ok {
+						return &ast.ParenExpr{X: a}
+					}
+				}
+				return nil
+			})
+			return &ast.ParenExpr{X: sub}
+		}
+		return nil
+	})
+	return out, err
+}
+
+func findIte(x ast.Expr) *ast.CallExpr {
+	var found *ast.CallExpr
+	ast.Inspect(x, func(n ast.Node) bool {
+		if found != nil {
+			return false
+		}
+		if c, ok := n.(*ast.CallExpr); ok {
+			switch callName(c) {
+			case "ite":
+				found = c
+				return false
+			case "all", "any":
+				// ites below a quantifier are lifted inside its body
+				return false
+			}
+		}
+		return true
+	})
+	return found
+}
+
+func replaceNode(x ast.Expr, old ast.Expr, nw ast.Expr) ast.Expr {
+	return cloneExpr(x, func(n ast.Expr) ast.Expr {
+		if n == old {
+			return nw
+		}
+		return nil
+	})
+}
+
+// emit prints a boolean or value expression as Go.
+func (g *goCompiler) emit(x ast.Expr, inOld bool) (string, error) {
+	switch n := x.(type) {
+	case *ast.ParenExpr:
+		s, err := g.emit(n.X, inOld)
+		return "(" + s + ")", err
+	case *ast.Ident:
+		switch n.Name {
+		case "MaxInt":
+			g.imports["math"] = "math"
+			return "math.MaxInt", nil
+		case "MinInt":
+			g.imports["math"] = "math"
+			return "math.MinInt", nil
+		}
+		if g.rc.Ghosts[n.Name] {
+			return "", unsupported{"clause reads the ghost variable " + n.Name}
+		}
+		if inOld && g.params[n.Name] {
+			g.usesOld[n.Name] = true
+			return n.Name + "__old", nil
+		}
+		return n.Name, nil
+	case *ast.BasicLit:
+		return n.Value, nil
+	case *ast.UnaryExpr:
+		s, err := g.emit(n.X, inOld)
+		return "(" + n.Op.String() + s + ")", err
+	case *ast.BinaryExpr:
+		switch n.Op {
+		case token.EQL, token.NEQ, token.LSS, token.LEQ, token.GTR, token.GEQ:
+			if it := findIte(n); it != nil && len(it.Args) == 3 {
+				a := replaceNode(n, it, it.Args[1])
+				b := replaceNode(n, it, it.Args[2])
+				c, e0 := g.emit(it.Args[0], inOld)
+				as, e1 := g.emit(a, inOld)
+				bs, e2 := g.emit(b, inOld)
+				for _, e := range []error{e0, e1, e2} {
+					if e != nil {
+						return "", e
+					}
+				}
+				return fmt.Sprintf("((%s) && (%s) || !(%s) && (%s))", c, as, c, bs), nil
+			}
+		}
+		a, e1 := g.emit(n.X, inOld)
+		b, e2 := g.emit(n.Y, inOld)
+		if e1 != nil {
+			return "", e1
+		}
+		if e2 != nil {
+			return "", e2
+		}
+		return "(" + a + " " + n.Op.String() + " " + b + ")", nil
+	case *ast.IndexExpr:
+		a, e1 := g.emit(n.X, inOld)
+		b, e2 := g.emit(n.Index, inOld)
+		if e1 != nil {
+			return "", e1
+		}
+		return a + "[" + b + "]", e2
+	case *ast.SliceExpr:
+		a, err := g.emit(n.X, inOld)
+		if err != nil {
+			return "", err
+		}
+		lo, hi := "", ""
+		if n.Low != nil {
+			if lo, err = g.emit(n.Low, inOld); err != nil {
+				return "", err
+			}
+		}
+		if n.High != nil {
+			if hi, err = g.emit(n.High, inOld); err != nil {
+				return "", err
+			}
+		}
+		return a + "[" + lo + ":" + hi + "]", nil
+	case *ast.SelectorExpr:
+		a, err := g.emit(n.X, inOld)
+		return a + "." + n.Sel.Name, err
+	case *ast.StarExpr:
+		a, err := g.emit(n.X, inOld)
+		return "(*" + a + ")", err
+	case *ast.TypeAssertExpr:
+		a, err := g.emit(n.X, inOld)
+		var tb strings.Builder
+		writeExpr(&tb, n.Type)
+		return a + ".(" + tb.String() + ")", err
+	case *ast.CallExpr:
+		name := callName(n)
+		switch name {
+		case "old":
+			if len(n.Args) != 1 {
+				return "", unsupported{"old()"}
+			}
+			return g.emit(n.Args[0], true)
+		case "implies":
+			a, e1 := g.emit(n.Args[0], inOld)
+			b, e2 := g.emit(n.Args[1], inOld)
+			if e1 != nil {
+				return "", e1
+			}
+			return "(!(" + a + ") || (" + b + "))", e2
+		case "iff":
+			a, e1 := g.emit(n.Args[0], inOld)
+			b, e2 := g.emit(n.Args[1], inOld)
+			if e1 != nil {
+				return "", e1
+			}
+			return "((" + a + ") == (" + b + "))", e2
+		case "ite":
+			// boolean-level ite
+			c, e0 := g.emit(n.Args[0], inOld)
+			a, e1 := g.emit(n.Args[1], inOld)
+			b, e2 := g.emit(n.Args[2], inOld)
+			for _, e := range []error{e0, e1, e2} {
+				if e != nil {
+					return "", e
+				}
+			}
+			return fmt.Sprintf("((%s) && (%s) || !(%s) && (%s))", c, a, c, b), nil
+		case "all", "any":
+			v := n.Args[0].(*ast.Ident).Name
+			lo, e1 := g.emit(n.Args[1], inOld)
+			hi, e2 := g.emit(n.Args[2], inOld)
+			body, e3 := g.emit(n.Args[3], inOld)
+			for _, e := range []error{e1, e2, e3} {
+				if e != nil {
+					return "", e
+				}
+			}
+			if name == "all" {
+				return fmt.Sprintf("func() bool { for %s := int(%s); %s < int(%s); %s++ { if !(%s) { return false } }; return true }()", v, lo, v, hi, v, body), nil
+			}
+			return fmt.Sprintf("func() bool { for %s := int(%s); %s < int(%s); %s++ { if %s { return true } }; return false }()", v, lo, v, hi, v, body), nil
+		}
+		// ordinary call or conversion (len, int, string, package functions)
+		f, err := g.emit(n.Fun, inOld)
+		if err != nil {
+			return "", err
+		}
+		var as []string
+		for _, a := range n.Args {
+			s, err := g.emit(a, inOld)
+			if err != nil {
+				return "", err
+			}
+			as = append(as, s)
+		}
+		return f + "(" + strings.Join(as, ", ") + ")", nil
+	}
+	return "", unsupported{fmt.Sprintf("expression form %T", x)}
+}
+
+func (g *goCompiler) compile(c *Clause) (string, error) {
+	ex, err := g.expand(c.Expr, 0)
+	if err != nil {
+		return "", err
+	}
+	return g.emit(ex, false)
+}
+
+// ---- the replay itself ----
+
+// runReplayTest injects the test into the package directory with an overlay (nothing is written to the repository),
+// runs it and returns the combined output.
+func runReplayTest(src, pkgDir, repo, testFile string) string {
+	os.MkdirAll(filepath.Dir(testFile), 0o755)
+	os.WriteFile(testFile, []byte(src), 0o644)
+	target := filepath.Join(repo, pkgDir, "zz_verif_replay_test.go")
+	ov, _ := json.Marshal(map[string]interface{}{"Replace": map[string]string{target: testFile}})
+	ovFile := strings.TrimSuffix(testFile, "_replay_test.go") + "_overlay.json"
+	os.WriteFile(ovFile, ov, 0o644)
+	defer os.Remove(ovFile)
+	cmd := exec.Command("/opt/veriftools/go1.26.8/bin/go", "test", "-overlay", ovFile, "-vet=off", "-timeout", "60s", "-count=1", "-v", "-run", "^TestVerifReplay$", "./"+pkgDir)
+	cmd.Dir = repo
+	cmd.Env = append(os.Environ(), "GOFLAGS=-mod=mod", "GOPROXY=off", "GOTOOLCHAIN=local", "GOSUMDB=off", "PATH=/opt/veriftools/go1.26.8/bin:"+os.Getenv("PATH"))
+	var buf bytes.Buffer
+	cmd.Stdout = &buf
+	cmd.Stderr = &buf
+	done := make(chan error, 1)
+	if err := cmd.Start(); err != nil {
+		return "go test could not be started: " + err.Error()
+	}
+	go func() { done <- cmd.Wait() }()
+	select {
+	case <-done:
+	case <-time.After(150 * time.Second):
+		cmd.Process.Kill()
+		<-done
+	}
+	return buf.String()
+}
+
+// replayOutcome reads the VERIF-REPLAY lines: did the real code fail the way the obligation says it can?
+func replayOutcome(out, expect string, noSafety bool) (lines []string, ran, confirmed bool) {
+	for _, ln := range strings.Split(out, "\n") {
+		if strings.Contains(ln, "VERIF-REPLAY") {
+			lines = append(lines, strings.TrimSpace(ln))
+		}
+	}
+	ran = len(lines) > 0
+	panicked := strings.Contains(out, "VERIF-REPLAY panic:")
+	switch {
+	case expect == "panic" && panicked:
+		confirmed = true
+	case expect == "post" && strings.Contains(out, "VERIF-REPLAY post: false"):
+		confirmed = true
+	case expect == "post" && panicked && !noSafety:
+		confirmed = true
+	}
+	return
+}
+
+func replayKindExpectsPanic(kind string) bool {
+	switch kind {
+	case "index", "slice", "div", "typeassert", "panic", "make", "nil", "shift":
+		return true
+	}
+	return false
+}
+
+func replayModel(prop string, o *Obligation, dir string) *ReplayResult {
+	rc := o.RC
+	if rc == nil || rc.Fn == nil {
+		return nil
+	}
+	if replayBudget <= 0 {
+		return &ReplayResult{Output: "replay budget of this run used up (the first failing obligations were replayed)"}
+	}
+	fn := rc.Fn
+	rr := &ReplayResult{}
+	fail := func(format string, a ...interface{}) *ReplayResult {
+		rr.Output = "not replayed: " + fmt.Sprintf(format, a...)
+		return rr
+	}
+	if fn.Parent() != nil || fn.Pkg == nil || len(fn.FreeVars) > 0 {
+		return fail("the function is a closure")
+	}
+	if fn.Signature.TypeParams() != nil || fn.Signature.RecvTypeParams() != nil || len(fn.TypeArgs()) > 0 {
+		return fail("generic function")
+	}
+	expectsPanic := replayKindExpectsPanic(o.Kind)
+	if !expectsPanic && o.Kind != "ensures" {
+		return fail("obligations of kind %q have no directly observable outcome", o.Kind)
+	}
+	replayBudget--
+	x := &replayX{rc: rc, pkg: fn.Pkg.Pkg, imports: map[string]string{}, objs: map[string]string{}}
+	for _, p := range rc.Params {
+		if !p.V.Bad {
+			x.preferences(p.V.T, p.V.L, 0)
+		}
+	}
+	// the same goal with preferences for a small model (asserted, so they only ever select among real models)
+	var sess *smtSession
+	verdict := ""
+	var err error
+	base := o.SMT
+	if i := strings.LastIndex(base, "(check-sat)"); i >= 0 {
+		base = base[:i]
+	}
+	// greedy: keep each preference that leaves the goal satisfiable (decided quickly); the rest are dropped
+	accepted := ""
+	deadline := time.Now().Add(40 * time.Second)
+	os.MkdirAll(dir, 0o755)
+	pf := filepath.Join(dir, "pref.smt2")
+	for _, c := range append(append([]string{}, x.prefsNil...), x.prefsSize...) {
+		if time.Now().After(deadline) {
+			break
+		}
+		os.WriteFile(pf, []byte(base+accepted+"(assert "+c+")\n(check-sat)\n"), 0o644)
+		outb, _ := exec.Command("z3-new", "-T:4", pf).CombinedOutput()
+		if parseVerdict(string(outb)) == "sat" {
+			accepted += "(assert " + c + ")\n"
+		}
+	}
+	os.Remove(pf)
+	for _, q := range []string{base + accepted, base} {
+		sess, verdict, err = startSession(q)
+		if err != nil {
+			return fail("solver session: %v", err)
+		}
+		if verdict == "sat" {
+			break
+		}
+		sess.close()
+		sess = nil
+	}
+	if sess == nil {
+		return fail("the replay session answered %q where the deciding solver answered sat", verdict)
+	}
+	defer sess.close()
+	x.s = sess
+	var decls []string
+	var names []string
+	for i, p := range rc.Params {
+		if p.V.Bad {
+			return fail("parameter %s could not be modelled", p.Name)
+		}
+		name := p.Name
+		if name == "" || name == "_" {
+			name = fmt.Sprintf("vrArg%d", i)
+		}
+		g, err := x.build(p.V.T, p.V.L, 0, name)
+		if err != nil {
+			if _, ok := err.(unsupported); ok {
+				return fail("parameter %s: %v", name, err)
+			}
+			return fail("reading the model: %v", err)
+		}
+		decls = append(decls, fmt.Sprintf("\t%s := %s\n\t_ = %s", name, g, name))
+		names = append(names, name)
+	}
+	// postcondition
+	gc := &goCompiler{rc: rc, params: map[string]bool{}, usesOld: map[string]bool{}, imports: x.imports}
+	for _, n := range names {
+		gc.params[n] = true
+	}
+	post := ""
+	if o.Kind == "ensures" {
+		if o.Clause == nil {
+			return fail("no clause recorded")
+		}
+		post, err = gc.compile(o.Clause)
+		if err != nil {
+			return fail("postcondition not executable: %v", err)
+		}
+	}
+	// call
+	sig := fn.Signature
+	var call string
+	args := names
+	if sig.Recv() != nil {
+		call = names[0] + "." + fn.Name() + "(" + strings.Join(names[1:], ", ") + ")"
+		args = names[1:]
+	} else {
+		call = fn.Name() + "(" + strings.Join(args, ", ") + ")"
+	}
+	if sig.Variadic() && len(args) > 0 {
+		call = strings.TrimSuffix(call, ")") + "...)"
+	}
+	var resDecl, resAssign []string
+	for i := 0; i < sig.Results().Len(); i++ {
+		rn := rc.Results[i]
+		resDecl = append(resDecl, fmt.Sprintf("\tvar %s %s\n\t_ = %s", rn, x.typeStr(sig.Results().At(i).Type()), rn))
+		resAssign = append(resAssign, rn)
+	}
+	if sig.Results().Len() == 1 && rc.Results[0] != "result" {
+		// "result" is always available as an alias
+		resDecl = append(resDecl, "")
+	}
+	var b strings.Builder
+	fmt.Fprintf(&b, "package %s\n\nimport (\n\t\"fmt\"\n\t\"testing\"\n", fn.Pkg.Pkg.Name())
+	var olds []string
+	for n := range gc.usesOld {
+		olds = append(olds, n)
+	}
+	sort.Strings(olds)
+	var ips []string
+	for p := range x.imports {
+		ips = append(ips, p)
+	}
+	sort.Strings(ips)
+	for _, p := range ips {
+		if p == "fmt" || p == "testing" {
+			continue
+		}
+		fmt.Fprintf(&b, "\t%s %q\n", x.imports[p], p)
+	}
+	b.WriteString(")\n\nfunc vrPtr[T any](v T) *T { return &v }\n\n")
+	b.WriteString("// vrCopy copies what old(...) may look at: the elements of a slice, the pointee of a pointer.\nfunc vrCopy[T any](v T) T {\n\tswitch x := any(v).(type) {\n\tcase []string:\n\t\treturn any(append([]string(nil), x...)).(T)\n\tcase []int:\n\t\treturn any(append([]int(nil), x...)).(T)\n\tcase []byte:\n\t\treturn any(append([]byte(nil), x...)).(T)\n\tcase []rune:\n\t\treturn any(append([]rune(nil), x...)).(T)\n\t}\n\treturn v\n}\n\n")
+	fmt.Fprintf(&b, "// Replay of obligation %s\n// (%s)\nfunc TestVerifReplay(t *testing.T) {\n", o.Name, o.Descr)
+	for _, d := range decls {
+		b.WriteString(d + "\n")
+	}
+	for _, n := range olds {
+		// pointers: copy the pointee
+		var pt types.Type
+		for _, p := range rc.Params {
+			if p.Name == n {
+				pt = p.V.T
+			}
+		}
+		if ptr, ok := pt.Underlying().(*types.Pointer); ok {
+			_ = ptr
+			fmt.Fprintf(&b, "\t%s__old := %s\n\tif %s != nil {\n\t\tvrC := *%s\n\t\t%s__old = &vrC\n\t}\n", n, n, n, n, n)
+		} else {
+			fmt.Fprintf(&b, "\t%s__old := vrCopy(%s)\n", n, n)
+		}
+		fmt.Fprintf(&b, "\t_ = %s__old\n", n)
+	}
+	for _, d := range resDecl {
+		if d != "" {
+			b.WriteString(d + "\n")
+		}
+	}
+	b.WriteString("\tvar vrPanic any\n\tfunc() {\n\t\tdefer func() { vrPanic = recover() }()\n\t\t")
+	if len(resAssign) > 0 {
+		b.WriteString(strings.Join(resAssign, ", ") + " = ")
+	}
+	b.WriteString(call + "\n\t}()\n")
+	b.WriteString("\tif vrPanic != nil {\n\t\tfmt.Printf(\"VERIF-REPLAY panic: %v\\n\", vrPanic)\n\t\treturn\n\t}\n")
+	for i, rn := range rc.Results {
+		_ = i
+		fmt.Fprintf(&b, "\tfmt.Printf(\"VERIF-REPLAY result %s = %%#v\\n\", %s)\n", rn, rn)
+	}
+	if post != "" {
+		if sig.Results().Len() == 1 && rc.Results[0] != "result" {
+			fmt.Fprintf(&b, "\tresult := %s\n\t_ = result\n", rc.Results[0])
+		}
+		b.WriteString("\tvar vrPost bool\n\tfunc() {\n\t\tdefer func() {\n\t\t\tif r := recover(); r != nil {\n\t\t\t\tfmt.Printf(\"VERIF-REPLAY post-panic: %v\\n\", r)\n\t\t\t}\n\t\t}()\n")
+		fmt.Fprintf(&b, "\t\tvrPost = %s\n\t\tfmt.Printf(\"VERIF-REPLAY post: %%v\\n\", vrPost)\n\t}()\n", post)
+	} else {
+		b.WriteString("\tfmt.Println(\"VERIF-REPLAY returned normally\")\n")
+	}
+	b.WriteString("}\n")
+	rr.Test = b.String()
+
+	// inject with an overlay and run
+	pkgDir := ""
+	if pp := fn.Pkg.Pkg.Path(); strings.HasPrefix(pp, "mvdan.cc/sh/v3") {
+		pkgDir = strings.TrimPrefix(strings.TrimPrefix(pp, "mvdan.cc/sh/v3"), "/")
+	} else {
+		return fail("package %s is outside the module", pp)
+	}
+	rr.PkgDir = pkgDir
+	rr.Expect = "post"
+	if expectsPanic {
+		rr.Expect = "panic"
+	}
+	tbase := filepath.Join(dir, sanitize(o.Name))
+	if len(tbase) > 180 {
+		tbase = tbase[:180]
+	}
+	testFile := tbase + "_replay_test.go"
+	out := runReplayTest(rr.Test, pkgDir, rc.Dir, testFile)
+	lines, ran, confirmed := replayOutcome(out, rr.Expect, rc.NoSafety)
+	rr.Ran = ran
+	rr.NoSafety = rc.NoSafety
+	if !rr.Ran {
+		rr.Output = "replay test did not run: " + firstLines(out, 30)
+		return rr
+	}
+	rr.Output = strings.Join(lines, "\n")
+	rr.Confirmed = confirmed
+	if rr.Confirmed {
+		rr.Output += "\nCONFIRMED on the real code: the inputs above are in " + testFile
+	} else {
+		rr.Output += "\nthe model did not reproduce from the function's entry (the failing state lies inside a loop or behind an abstracted call)"
+	}
+	return rr
+}
